@@ -52,7 +52,7 @@ HAND = {
     'Elf_Arm_Attribute_Tag': [('tag', 'uleb')],
     'Elf_RiscV_Attribute_Tag': [('tag', 'uleb')],
     # GDB "Separate Debug Files": C string, pad to 4 from the start, crc word
-    'Gnu_debuglink': [('filename', 'cstr'), (None, 'pad:3-len(ctx.filename)%4'), ('checksum', 'u32')],
+    'Gnu_debuglink': [('filename', 'cstr'), (None, 'pad:@filename:' + ','.join(str(3 - n % 4) for n in range(12))), ('checksum', 'u32')],     # CRC at the next 4-byte boundary after name + NUL
 }
 
 # linux/elfcore.h struct elf_prpsinfo
